@@ -835,7 +835,17 @@ def _default_mode_case(binary, hooks, fs, dm, label, letters, H, out):
             c = wire.Client(srv.port, timeout=6.0)
             c.register("dmc", "dmc")
             c.send("OPER root rootpw")
-            c.ping("o")
+            ol = c.ping("o")
+            # a predefined operator gets +o from OPER whatever the default modes gave it before (+O is not +o)
+            c.send("MODE dmc")
+            m221 = [m.params[1] for m in c.ping("m") if m.verb == "221" and len(m.params) > 1]
+            out.append(("%s: OPER answers 381 and adds o to the default modes (%s)" % (label, m221),
+                        any(m.verb == "381" for m in ol) and len(m221) == 1 and "o" in m221[0]
+                        and set(m221[0]) >= set(want)))
+            c.send("KILL nobody-there :probe")
+            kl = c.ping("k")
+            out.append(("%s: after OPER a KILL is not refused for lack of privileges" % label,
+                        not any(m.verb == "481" for m in kl)))
             c.send("WALLOPS :to the audience")
             c.ping("w")
             # b's copy travels through b's own queue; a message b sends to itself queues up behind it (a PING would not:
